@@ -122,6 +122,8 @@ fn code(d: &mut Diffs, ctx: &str, e: &SCode, a: &SCode) {
 	cmpe(d, ctx, &format!("{k}.line_numbers"), &e.line_numbers, &a.line_numbers);
 	cmpe(d, ctx, &format!("{k}.local_variables"), &e.local_vars, &a.local_vars);
 	cmpe(d, ctx, &format!("{k}.local_variable_types"), &e.local_var_types, &a.local_var_types);
+	cmpe(d, ctx, &format!("{k}.line_numbers.empty_table"), &e.empty_line_table, &a.empty_line_table);
+	cmpe(d, ctx, &format!("{k}.local_variables.empty_table"), &e.empty_local_table, &a.empty_local_table);
 	cmpe(d, ctx, &format!("{k}.frames"), &e.frames, &a.frames);
 	cmpe(d, ctx, &format!("{k}.visible_type_annotations"), &e.visible_type, &a.visible_type);
 	cmpe(d, ctx, &format!("{k}.invisible_type_annotations"), &e.invisible_type, &a.invisible_type);
